@@ -46,8 +46,10 @@ def tree(rng, i):
         steps.append(fe)
         outs["success"]["d"] = Expr(Ref("loop", "outputs", "success", "data"))
         if rng.random() < 0.5:
-            # the same sub-workflow file shared by a second loop step
-            fe2 = Step("loop2", "foreach", sub=sub, items=[{"tag": "second"}])
+            # a sub-workflow file shared by a second loop step: either the same file as the first loop's, or the leaf file,
+            # which is then referenced from two *different* files (root and an intermediate level)
+            shared = sub if rng.random() < 0.5 else l
+            fe2 = Step("loop2", "foreach", sub=shared, items=[{"tag": "second"}])
             steps.append(fe2)
             outs["success"]["d2"] = Expr(Ref("loop2", "outputs", "success", "data"))
     output_schema = None
